@@ -78,3 +78,74 @@ pub fn show_bytes(b: &[u8]) -> String {
 pub fn hash64(s: &str) -> u64 {
     s.bytes().fold(14695981039346656037u64, |h, b| (h ^ b as u64).wrapping_mul(1099511628211))
 }
+
+// ---- rare values and scale --------------------------------------------------------------
+// Inputs that exhaustive small-scope enumeration and moderate random generation do not reach by
+// themselves: characters that matter in exactly one way (a code point whose low byte is an ASCII
+// metacharacter, Unicode blanks and digits that are not ASCII blanks / digits, characters of the
+// last plane whose UTF-8 lead byte is 0xF4, control characters), and sizes around the thresholds
+// of fixed tables, narrow integers and buffers.
+
+/// ASCII characters with a meaning somewhere in the formats of this library
+pub const META: [u8; 24] = [b'{', b'}', b',', b'<', b'>', b'=', b'*', b'?', b'[', b']', b'!', b'-', b':', b'/', b'.', b'@', b'(', b')',
+    b'$', b'+', b'_', b' ', b'\n', b'#'];
+
+/// a character that is not `m` but whose code point has `m` as its low byte
+pub fn alias_of(rng: &mut Rng, m: u8) -> char {
+    let hi = *rng.pick(&[0x100u32, 0x300, 0x400, 0x4e00, 0x3000, 0x1f600, 0x10ff00]);
+    char::from_u32(hi + m as u32).unwrap_or('\u{17b}')
+}
+
+pub const UNI_BLANKS: [char; 16] = ['\u{85}', '\u{a0}', '\u{1680}', '\u{2000}', '\u{2003}', '\u{200a}', '\u{2028}', '\u{2029}', '\u{202f}',
+    '\u{205f}', '\u{3000}', '\u{feff}', '\u{200b}', '\u{0b}', '\u{0c}', '\u{1c}'];
+pub const UNI_DIGITS: [char; 8] = ['²', '½', '٣', '５', '①', '\u{660}', '৪', 'Ⅷ'];
+pub const ODD_CHARS: [char; 10] = ['\u{7f}', '\u{10fffd}', '\u{100000}', '\u{ffff}', '\u{d7ff}', '\u{e000}', '\u{212a}', '\u{130}', '\u{1}', '\u{80}'];
+
+pub fn rare_char(rng: &mut Rng) -> char {
+    match rng.below(4) {
+        0 => { let m = *rng.pick(&META); alias_of(rng, m) }
+        1 => *rng.pick(&UNI_BLANKS),
+        2 => *rng.pick(&UNI_DIGITS),
+        _ => *rng.pick(&ODD_CHARS),
+    }
+}
+
+/// s with, now and then (1 in `den`), one rare character put where it is most likely to matter:
+/// at the start, at the end, or next to a metacharacter, a blank or a digit
+pub fn sprinkle(rng: &mut Rng, s: &str, den: usize) -> String {
+    if !rng.chance(1, den) {
+        return s.to_string();
+    }
+    let cs: Vec<char> = s.chars().collect();
+    let special: Vec<usize> = (0..cs.len()).filter(|&i| !cs[i].is_ascii_alphabetic()).collect();
+    let at = match rng.below(4) {
+        0 => 0,
+        1 => cs.len(),
+        2 if !special.is_empty() => special[rng.below(special.len())] + rng.below(2),
+        _ => rng.below(cs.len() + 1),
+    };
+    let mut out: String = cs[..at].iter().collect();
+    out.push(rare_char(rng));
+    out.extend(cs[at..].iter());
+    out
+}
+
+/// a size at or next to a threshold an implementation might have
+pub fn threshold(rng: &mut Rng, max: usize) -> usize {
+    const T: [usize; 14] = [16, 17, 32, 33, 64, 65, 128, 255, 256, 257, 1023, 1024, 1025, 4096];
+    const BIG: [usize; 10] = [4097, 8191, 8192, 8193, 16384, 65535, 65536, 65537, 70000, 131073];
+    loop {
+        let t = if rng.chance(2, 3) { *rng.pick(&T) } else { *rng.pick(&BIG) };
+        if t <= max {
+            return t;
+        }
+    }
+}
+
+/// a decimal number at or around the limits of the integer types
+pub fn limit_number(rng: &mut Rng) -> String {
+    rng.pick_str(&["2147483647", "2147483648", "4294967295", "4294967296", "9223372036854775807", "9223372036854775808",
+        "9999999999999999999", "18446744073709551615", "18446744073709551616", "36000000000000000000", "27670116110564327430",
+        "99999999999999999999", "340282366920938463463374607431768211456", "-9223372036854775808", "-9223372036854775809",
+        "-2147483649", "+5", "00000000000000000000005", "-0", "1e3"]).to_string()
+}
